@@ -2050,3 +2050,335 @@ func ruleSizeCheckNoOverflow(c *eng.Ctx) {
 	}
 	c.Ok(R, "module#scanned", token.NoPos, fmt.Sprintf("%d products compared with a limit", n))
 }
+
+// R15.11 [C15, C16]
+func ruleLevelByILvl(c *eng.Ctx) {
+	const R = "R15.11-LEVEL-BY-ILVL"
+	c.Rule(R, "the DOCX numbering resolver picks the definition of a list level by its w:ilvl: every read of a level definition's number format in ResolveLevel happens where that same definition's ILvl was compared (equal) with the level asked for. An abstract numbering may declare only some levels, or declare them in any order, so the k-th definition is not level k", 1, 0)
+	fn := c.P.Func("docx.(*NumberingResolver).ResolveLevel")
+	if fn == nil {
+		c.Undec(R, "docx.(*NumberingResolver).ResolveLevel", token.NoPos, "anchor not found")
+		return
+	}
+	var levelParam ssa.Value
+	for _, p := range fn.Params {
+		if b, ok := p.Type().Underlying().(*types.Basic); ok && b.Kind() == types.Int {
+			levelParam = p
+		}
+	}
+	elemOf := func(fa *ssa.FieldAddr) ssa.Value { return fa.X }
+	n := 0
+	for _, h := range eng.Cluster(fn, 1) {
+		if h.Pkg != fn.Pkg {
+			continue
+		}
+		eng.Instrs(h, false, func(in ssa.Instruction) {
+			fa, ok := in.(*ssa.FieldAddr)
+			if !ok {
+				return
+			}
+			fr, ok := eng.AsField(fa)
+			if !ok || fr.Field != "NumFmt" {
+				return
+			}
+			n++
+			el := elemOf(fa)
+			matched := eng.GuardedBy(h, fa.Block(), func(f eng.Fact) bool {
+				op, x, y, ok := f.Cmp()
+				if !ok || op != token.EQL {
+					return false
+				}
+				for _, pair := range [][2]ssa.Value{{x, y}, {y, x}} {
+					isILvl := false
+					for w := range eng.Slice(pair[0], func(*ssa.Call) bool { return true }) {
+						if ld, ok := w.(*ssa.UnOp); ok && ld.Op == token.MUL {
+							if fa2, ok := ld.X.(*ssa.FieldAddr); ok {
+								if fr2, ok := eng.AsField(fa2); ok && fr2.Field == "ILvl" && eng.SameValue(elemOf(fa2), el) {
+									isILvl = true
+								}
+							}
+						}
+					}
+					if !isILvl {
+						continue
+					}
+					if levelParam == nil || h != fn {
+						return true
+					}
+					for w := range eng.Slice(pair[1], func(*ssa.Call) bool { return true }) {
+						if w == levelParam {
+							return true
+						}
+					}
+				}
+				return false
+			})
+			c.Check(matched, R, fmt.Sprintf("%s#NumFmt%d", eng.FuncName(h), n), fa.Pos(), "read from the definition whose ILvl equals the level", "a level definition's number format is read without that definition's ILvl having been compared with the requested level (looked up by position): in a numbering that declares only some levels, or lists them out of order, items get the marker kind of another level")
+		})
+	}
+	if n == 0 {
+		c.Undec(R, "docx.(*NumberingResolver).ResolveLevel#NumFmt", fn.Pos(), "no read of a level's number format found")
+	}
+}
+
+// elemFieldsOfSliceField: which fields of the elements of a slice held in a struct field the function fn reads,
+// keyed by the name of that struct field (cm.rangeMappings[i].StartCode -> {"rangeMappings": {"StartCode"}}).
+func elemFieldsOfSliceField(fn *ssa.Function) map[string]map[string]bool {
+	out := map[string]map[string]bool{}
+	eng.Instrs(fn, true, func(in ssa.Instruction) {
+		var base ssa.Value
+		var field string
+		switch x := in.(type) {
+		case *ssa.FieldAddr:
+			if fr, ok := eng.AsField(x); ok {
+				base, field = x.X, fr.Field
+			}
+		case *ssa.Field:
+			if fr, ok := eng.AsField(x); ok {
+				base, field = x.X, fr.Field
+			}
+		}
+		if base == nil {
+			return
+		}
+		for w := range eng.Slice(base, nil) {
+			var sl ssa.Value
+			switch y := w.(type) {
+			case *ssa.IndexAddr:
+				sl = y.X
+			case *ssa.Index:
+				sl = y.X
+			}
+			if sl == nil {
+				continue
+			}
+			if fr, ok := eng.LoadOfField(sl); ok {
+				if out[fr.Field] == nil {
+					out[fr.Field] = map[string]bool{}
+				}
+				out[fr.Field][field] = true
+			}
+		}
+	})
+	return out
+}
+
+// R7.5 [C07]
+func ruleSearchKeyIsSortKey(c *eng.Ctx) {
+	const R = "R7.5-SEARCH-KEY-IS-SORT-KEY"
+	c.Rule(R, "a binary search over a list kept in a struct field looks at the field the list is sorted by: where sort.Search's predicate reads field F of the elements of a list and the module sorts that list with sort.Slice, the less function compares F too. A list ordered by another field (the targets of a bfrange instead of its source codes) makes the search land on the wrong entry whenever the two orders differ", 0, 1)
+	type use struct {
+		fn     *ssa.Function
+		pos    token.Pos
+		fields map[string]map[string]bool
+	}
+	var searches, sorts []use
+	for _, fn := range c.P.ModuleFuncs() {
+		if fn.Blocks == nil {
+			continue
+		}
+		eng.Instrs(fn, false, func(in ssa.Instruction) {
+			ci, ok := in.(ssa.CallInstruction)
+			if !ok {
+				return
+			}
+			name := eng.CalleeName(ci)
+			args := ci.Common().Args
+			closure := func(v ssa.Value) *ssa.Function {
+				if mc, ok := v.(*ssa.MakeClosure); ok {
+					f, _ := mc.Fn.(*ssa.Function)
+					return f
+				}
+				f, _ := v.(*ssa.Function)
+				return f
+			}
+			switch name {
+			case "sort.Search":
+				if len(args) == 2 {
+					if g := closure(args[1]); g != nil {
+						searches = append(searches, use{fn, ci.Pos(), elemFieldsOfSliceField(g)})
+					}
+				}
+			case "sort.Slice", "sort.SliceStable":
+				if len(args) == 2 {
+					if g := closure(args[1]); g != nil {
+						sorts = append(sorts, use{fn, ci.Pos(), elemFieldsOfSliceField(g)})
+					}
+				}
+			}
+		})
+	}
+	n := 0
+	for _, s := range searches {
+		var lists []string
+		for l := range s.fields {
+			lists = append(lists, l)
+		}
+		sort.Strings(lists)
+		for _, l := range lists {
+			for _, so := range sorts {
+				sf, ok := so.fields[l]
+				if !ok {
+					continue
+				}
+				n++
+				common := false
+				for f := range s.fields[l] {
+					if sf[f] {
+						common = true
+					}
+				}
+				c.Check(common, R, fmt.Sprintf("%s#search(%s)", eng.FuncName(s.fn), l), s.pos, "searched by the field it is sorted by", fmt.Sprintf("the list %s is searched by %v but sorted (at %s) by %v: the binary search assumes an order the list does not have", l, keysOf(s.fields[l]), c.P.Pos(so.pos), keysOf(sf)))
+			}
+		}
+	}
+	c.Ok(R, "module#scanned", token.NoPos, fmt.Sprintf("%d binary searches, %d checked against a sort of the same list", len(searches), n))
+}
+
+// R13.8 [C12, C13]
+func ruleIndexUnits(c *eng.Ctx) {
+	const R = "R13.8-INDEX-UNITS"
+	c.Rule(R, "positions counted in code points are not used as byte offsets: a struct field of the rag package that is assigned an index into a []rune (the loop variable that walks the runes, len(runes)) is never — directly, through a local, or through the parameters of a closure — the bound of a slice expression on a string, or an index into one. For text with multi-byte characters such a cut lands inside a character and leaves out the end of the text", 2, 1)
+	isRuneSlice := func(t types.Type) bool {
+		sl, ok := t.Underlying().(*types.Slice)
+		if !ok {
+			return false
+		}
+		b, ok := sl.Elem().Underlying().(*types.Basic)
+		return ok && b.Kind() == types.Int32
+	}
+	isStringT := func(t types.Type) bool {
+		b, ok := t.Underlying().(*types.Basic)
+		return ok && b.Info()&types.IsString != 0
+	}
+	// a value counted in runes: len of a []rune, or a value used as index into a []rune
+	runeIdx := map[ssa.Value]bool{}
+	var fns []*ssa.Function
+	for _, fn := range c.P.ModuleFuncs() {
+		if fn.Pkg == nil || fn.Blocks == nil {
+			continue
+		}
+		sp := eng.ShortPath(fn.Pkg.Pkg.Path())
+		if sp != "rag" && !strings.Contains(sp, eng.PositivePkg) {
+			continue
+		}
+		fns = append(fns, fn)
+		eng.Instrs(fn, false, func(in ssa.Instruction) {
+			switch x := in.(type) {
+			case *ssa.IndexAddr:
+				if isRuneSlice(x.X.Type()) {
+					runeIdx[x.Index] = true
+				}
+			case *ssa.Index:
+				if isRuneSlice(x.X.Type()) {
+					runeIdx[x.Index] = true
+				}
+			case *ssa.Call:
+				if eng.CalleeName(x) == "builtin:len" && isRuneSlice(x.Call.Args[0].Type()) {
+					runeIdx[x] = true
+				}
+			}
+		})
+	}
+	type fkey struct {
+		st  string
+		idx int
+	}
+	runeField := map[fkey]string{}
+	derivesFromRune := func(v ssa.Value) bool {
+		for w := range eng.Slice(v, nil) {
+			if runeIdx[w] {
+				return true
+			}
+			// i+1 where i walks the runes: the induction phi behind the index
+			if b, ok := w.(*ssa.BinOp); ok && (runeIdx[b.X] || runeIdx[b.Y]) {
+				return true
+			}
+		}
+		return false
+	}
+	for _, fn := range fns {
+		eng.Instrs(fn, false, func(in ssa.Instruction) {
+			st, ok := in.(*ssa.Store)
+			if !ok {
+				return
+			}
+			fa, ok := st.Addr.(*ssa.FieldAddr)
+			if !ok {
+				return
+			}
+			if b, ok := st.Val.Type().Underlying().(*types.Basic); !ok || b.Kind() != types.Int {
+				return
+			}
+			if derivesFromRune(st.Val) {
+				if fr, ok := eng.AsField(fa); ok {
+					runeField[fkey{strings.TrimPrefix(eng.TypeName(fa.X.Type()), "*"), fa.Field}] = fr.Struct + "." + fr.Field
+				}
+			}
+		})
+	}
+	fieldOf := func(v ssa.Value) (fkey, bool) {
+		switch x := v.(type) {
+		case *ssa.UnOp:
+			if fa, ok := x.X.(*ssa.FieldAddr); ok && x.Op == token.MUL {
+				return fkey{strings.TrimPrefix(eng.TypeName(fa.X.Type()), "*"), fa.Field}, true
+			}
+		case *ssa.Field:
+			return fkey{strings.TrimPrefix(eng.TypeName(x.X.Type()), "*"), x.Field}, true
+		}
+		return fkey{}, false
+	}
+	var names []string
+	for _, v := range runeField {
+		names = append(names, v)
+	}
+	sort.Strings(names)
+	for _, nm := range dedupStr(names) {
+		c.Ok(R, "field "+nm, token.NoPos, "counted in code points")
+	}
+	for _, fn := range fns {
+		if fn.Parent() != nil {
+			continue
+		}
+		cluster := append([]*ssa.Function{fn}, fn.AnonFuncs...)
+		n := 0
+		for _, h := range cluster {
+			eng.Instrs(h, false, func(in ssa.Instruction) {
+				var bounds []ssa.Value
+				switch x := in.(type) {
+				case *ssa.Slice:
+					if isStringT(x.X.Type()) {
+						bounds = []ssa.Value{x.Low, x.High}
+					}
+				case *ssa.Index:
+					if isStringT(x.X.Type()) {
+						bounds = []ssa.Value{x.Index}
+					}
+				}
+				for _, b := range bounds {
+					if b == nil {
+						continue
+					}
+					if _, isC := eng.ConstInt(b); isC {
+						continue
+					}
+					bad := ""
+					for w := range eng.SliceInter(b, nil, cluster) {
+						if fk, ok := fieldOf(w); ok {
+							if nm, is := runeField[fk]; is {
+								bad = nm
+							}
+						}
+						if runeIdx[w] {
+							bad = "an index into a []rune"
+						}
+					}
+					if bad != "" {
+						n++
+						c.Viol(R, fmt.Sprintf("%s#string-cut%d", eng.FuncName(fn), n), in.Pos(), "a string is cut at a position that comes from "+bad+", which counts code points, not bytes: with multi-byte characters the cut falls inside a character and the text after the last cut is lost")
+					}
+				}
+			})
+		}
+	}
+}
